@@ -63,9 +63,13 @@ pub fn load_configs_raw(config_files: Vec<PathBuf>, partial_emmyrcs: Option<Vec<
 
     // Every file is flattened before it is merged, so a setting means the same whether a file
     // spells it with a flat key ("diagnostics.enable") or with nested objects, and later files win.
-    let mut flatten_config = FlattenConfigObject::default();
-    for config_json in &config_jsons {
-        flatten_config.merge(config_json);
+    let mut config_jsons = config_jsons.into_iter();
+    let first_config = config_jsons
+        .next()
+        .unwrap_or_else(|| Value::Object(Default::default()));
+    let mut flatten_config = FlattenConfigObject::parse(first_config);
+    for config_json in config_jsons {
+        flatten_config.merge(&config_json);
     }
     flatten_config.to_emmyrc()
 }
